@@ -238,6 +238,14 @@ fn check_exec(report: &Report, inputs: &[In], world: &World, exec: &Exec, saw_ov
             }
         }
     }
+    // "after the tool finished", judged on the log: the tool's terminal frame precedes its side-effects frame
+    if let Ok(all) = rip_log::EventLog::new(world.fx.data.join("events.jsonl")).and_then(|l| l.replay()) {
+        for (sig, msg) in crate::provx::lifecycle_violations(&all) {
+            if sig.starts_with("side_effects_") {
+                report.violation(&format!("C11:{sig}:{label}"), case(), &msg);
+            }
+        }
+    }
     let mutation_order: Vec<usize> = guard_begin_order.into_iter().filter(|a| logs_side_effects(inputs[*a])).collect();
     if frame_order != mutation_order {
         report.violation(
